@@ -39,11 +39,16 @@ NSH = 32
 
 def world_description(tier):
     w = WORLD[tier]
-    return f"extraction: layouts N={w['N']} k<={w['k']} x 5 alphabets x rotations {w['rots'] or 'all'}; located sequences: layouts N={w['Nl']} k<=3"
+    return (
+        f"extraction: layouts N={w['N']} k<={w['k']} x 5 alphabets x rotations {w['rots'] or 'all'}; located sequences: layouts N={w['Nl']} k<=3; "
+        f"scale family: {len(list(worlds.scale_layouts(tier)))} layouts with k in {worlds.SCALE_K[tier]} blocks x 2 alphabets x strands: "
+        f"extraction, reverse strand, every 2/3-way split at block boundaries (+-1 for k<=6); located sequences (k<=16) sliced at "
+        f"block boundaries, reverse complement, appends"
+    )
 
 
 def shards(tier, seed):
-    return [{"tier": tier, "part": p, "i": i} for p in ("extract", "located") for i in range(NSH)]
+    return [{"tier": tier, "part": p, "i": i} for p in ("extract", "located", "scale") for i in range(NSH)]
 
 
 def genome_for(aname, N, rot):
@@ -64,12 +69,12 @@ def tu(text):
     return text.replace("U", "T").replace("u", "t")
 
 
-def check_extract(res, aname, rot, N, bl, strand):
+def check_extract(res, aname, rot, N, bl, strand, scale=False):
     G = genome_for(aname, N, rot)
     alpha = Alphabet[aname]
     par = lib.seq_parent(G, alphabet=alpha)
     L = lib.mk_loc(bl, strand, par)
-    case = dict(kind="extract", alphabet=aname, rot=rot, N=N, blocks=[list(b) for b in bl], strand=strand)
+    case = dict(kind="extract", alphabet=aname, rot=rot, N=N, blocks=[list(b) for b in bl], strand=strand, scale=scale)
     res.state(("ext", aname, rot, bl, strand))
     if len(bl) > 1 or strand == "-":
         res.nontriv(("ext", aname, rot, bl, strand))
@@ -98,8 +103,11 @@ def check_extract(res, aname, rot, N, bl, strand):
         res.deviation("reverse_strand.extract_sequence", case, o[1], exp_rev, sig="extract-revstrand")
     # splits
     ln = len(exp)
-    for c1 in range(0, ln + 1):
-        for c2 in range(c1, ln + 1):
+    cps = range(0, ln + 1) if not scale else worlds.boundary_points(bl, around=1 if len(bl) <= 6 else 0)
+    for c1 in cps:
+        for c2 in cps:
+            if c2 < c1:
+                continue
             cuts = [0, c1, c2, ln]
             parts = []
             ok = True
@@ -136,22 +144,25 @@ def consistent(seq, G):
     return tu(str(seq)) == tu(X(lib.loc_blocks(loc), lib.loc_strand(loc), G)) and len(loc) == len(seq)
 
 
-def check_located(res, aname, N, bl, strand):
+def check_located(res, aname, N, bl, strand, scale=False):
     G = genome_for(aname, N, 0)
     alpha = Alphabet[aname]
     s = located(G, alpha, bl, strand)
     text = str(s)
     ln = len(text)
     Pm = M.P(bl, strand)
-    case = dict(kind="located", alphabet=aname, N=N, blocks=[list(b) for b in bl], strand=strand)
+    case = dict(kind="located", alphabet=aname, N=N, blocks=[list(b) for b in bl], strand=strand, scale=scale)
     res.state(("located", aname, bl, strand))
+    pts = range(0, ln + 1) if not scale else worlds.boundary_points(bl, around=1 if len(bl) <= 5 else 0)
     if consistent(s, G) is not True:
         res.deviation("Sequence", case, "constructor inconsistent", "consistent", sig="located-ctor")
         return
     slices = {}
     # explicit slices
-    for a in range(0, ln + 1):
-        for b in range(a, ln + 1):
+    for a in pts:
+        for b in pts:
+            if b < a:
+                continue
             o = lib.outcome(lambda: s[a:b])
             res.trans()
             c = dict(op="slice", a=a, b=b, **case)
@@ -206,6 +217,8 @@ def check_located(res, aname, N, bl, strand):
     # bases of its recorded location ("keeps their recorded location consistent with the characters they contain")
     outs = [slice(a, b) for a in range(-ln - 1, 0) for b in list(range(-ln - 1, ln + 2)) + [None]] + [slice(a, b) for a in range(0, ln + 1) for b in list(range(-ln - 1, 0)) + [ln + 1]]
     outs += [slice(None, b) for b in range(-ln - 1, 0)] + list(range(-ln - 1, 0)) + [ln, ln + 1]
+    if scale:
+        outs = [slice(-1, None), slice(0, ln + 1), slice(-ln, ln), -1, ln]
     for key in outs:
         o = lib.outcome(lambda: s[key])
         res.trans()
@@ -238,6 +251,9 @@ def check_located(res, aname, N, bl, strand):
             res.deviation("reverse_complement", c, str(o2[1]) if o2[0] == "ok" else o2[1], str(t), sig="rc-twice")
     # append: every ordered pair of proper slices
     keys = sorted(slices)
+    if scale and len(bl) > 8:
+        # many blocks: appends of pieces that start or end at the ends of the sequence only
+        keys = [k_ for k_ in keys if k_[0] == 0 or k_[1] == ln]
     for (a, b) in keys:
         for (c_, d) in keys:
             t1, t2 = slices[(a, b)], slices[(c_, d)]
@@ -290,6 +306,19 @@ def run_shard(shard):
                         check_extract(res, aname, rot, N, bl, strand)
         res.sample({"alphabet": "NT_EXTENDED", "genome": genome_for("NT_EXTENDED", N, 0), "blocks": [[0, 2], [4, 7]], "strand": "-",
                     "expected": X(((0, 2), (4, 7)), "-", genome_for("NT_EXTENDED", N, 0))})
+    elif part == "scale":
+        # the scale family (vlib/worlds.py): many blocks; cuts / slice bounds at (k<=6: within 1 of) block boundaries
+        idx = 0
+        for k, bl in worlds.scale_layouts(tier):
+            for aname in ("NT_EXTENDED_GAPPED", "NT_STRICT"):
+                idx += 1
+                if idx % NSH != shard["i"]:
+                    continue
+                N = bl[-1][1] + 1
+                for strand in "+-":
+                    check_extract(res, aname, k % 5, N, bl, strand, scale=True)
+                    if k <= 16:
+                        check_located(res, aname, N, bl, strand, scale=True)
     else:
         N = w["Nl"]
         idx = 0
@@ -315,9 +344,9 @@ def replay(case):
     res = ShardResult()
     bl = tuple(tuple(b) for b in case.get("blocks", []))
     if case["kind"] == "extract":
-        check_extract(res, case["alphabet"], case["rot"], case["N"], bl, case["strand"])
+        check_extract(res, case["alphabet"], case["rot"], case["N"], bl, case["strand"], scale=case.get("scale", False))
     elif case["kind"] == "located":
-        check_located(res, case["alphabet"], case["N"], bl, case["strand"])
+        check_located(res, case["alphabet"], case["N"], bl, case["strand"], scale=case.get("scale", False))
     else:
         r = run_shard({"tier": "quick", "part": "located", "i": 0})
         return [d for d in r.deviations if d["case"].get("kind") == "nonnt"]
